@@ -1865,7 +1865,7 @@ func main() {
 	}
 	b.WriteString("]\n\n")
 
-	b.WriteString("/-- A place where data enters from outside: file, environment, terminal, command line (flag definitions).\n`id` hashes package, API, the literal argument (file / variable / flag name) and the ordinal; `seeded`: the value\nread is a taint seed (label pass). -/\n")
+	b.WriteString("/-- A place where data enters from outside: file, environment, terminal, command line (flag definitions).\n`id` hashes package, API, the literal argument (file / variable / flag name), whether it is a seed, and the\nordinal among these; `seeded`: the value\nread is a taint seed (label pass). -/\n")
 	b.WriteString("structure Input where\n  id : Nat\n  seeded : Bool\n  pkg : String\n  fn : String\n  api : String\n  lit : String\n\n")
 	b.WriteString("def inputs : List Input := [\n")
 	{
@@ -1874,7 +1874,7 @@ func main() {
 		iord := map[string]int{}
 		for _, in := range inputs {
 			api := strings.NewReplacer("(*github.com/spf13/pflag.FlagSet).", "flag.", "golang.org/x/term.", "term.").Replace(in.api)
-			base := in.pkg + "|" + api + "|" + in.lit
+			base := fmt.Sprintf("%s|%s|%s|%v", in.pkg, api, in.lit, in.seeded)
 			k := base + "|" + in.fn
 			if seenIn[k] && (api == "os.Args" || api == "os.Stdin") {
 				continue // mentioned several times in one function
